@@ -540,11 +540,12 @@ func (p *InlineParser) parse(source []byte, container *Block) []*Inline {
 					plainStart = pos
 				case '\n':
 					// Hard line breaks already filtered out by other branches.
+					// Spaces at the end of the line are removed.
 					state.addToRoot(&Inline{
 						kind: TextKind,
 						span: Span{
 							Start: plainStart,
-							End:   pos,
+							End:   trimTrailingSpace(source, plainStart, pos),
 						},
 					})
 					if !state.isLastSpan() {
@@ -560,11 +561,12 @@ func (p *InlineParser) parse(source []byte, container *Block) []*Inline {
 					plainStart = pos
 				case '\r':
 					// Hard line breaks already filtered out by other branches.
+					// Spaces at the end of the line are removed.
 					state.addToRoot(&Inline{
 						kind: TextKind,
 						span: Span{
 							Start: plainStart,
-							End:   pos,
+							End:   trimTrailingSpace(source, plainStart, pos),
 						},
 					})
 					if pos+1 < state.spanEnd() && state.source[pos+1] == '\n' {
@@ -596,11 +598,21 @@ func (p *InlineParser) parse(source []byte, container *Block) []*Inline {
 					pos++
 				}
 			}
+			textEnd := state.spanEnd()
+			if state.isLastSpan() && (state.blockKind == ParagraphKind || state.blockKind == SetextHeadingKind) {
+				// "The paragraph's raw content is formed by [...]
+				// removing initial and final spaces or tabs."
+				// (A paragraph that ends in two or more spaces gets here with its line ending.)
+				for textEnd > plainStart && (source[textEnd-1] == '\n' || source[textEnd-1] == '\r') {
+					textEnd--
+				}
+				textEnd = trimTrailingSpace(source, plainStart, textEnd)
+			}
 			state.addToRoot(&Inline{
 				kind: TextKind,
 				span: Span{
 					Start: plainStart,
-					End:   state.spanEnd(),
+					End:   textEnd,
 				},
 			})
 			// Each unparsed span is one line of a paragraph:
@@ -613,6 +625,15 @@ func (p *InlineParser) parse(source []byte, container *Block) []*Inline {
 	}
 	p.processEmphasis(state, 0)
 	return dummy.children
+}
+
+// trimTrailingSpace returns the end of source[start:end]
+// without any trailing spaces or tabs.
+func trimTrailingSpace(source []byte, start, end int) int {
+	for end > start && (source[end-1] == ' ' || source[end-1] == '\t') {
+		end--
+	}
+	return end
 }
 
 func (p *InlineParser) parseBackslash(state *inlineState, start int) (end int) {
